@@ -1,1 +1,88 @@
-From MM Require Import Model.Conn.
+(* Props/C09.v - KILL QUERY spares the connection; KILL CONNECTION ends exactly the target. *)
+From Coq Require Import List Arith NArith Lia Bool.
+From MM Require Import Lib.Bytes Model.Conn Model.Resp Proofs.ConnInv Proofs.C10Proofs Proofs.KillProofs Proofs.RespProofs Gen.FactsConn.
+Import ListNotations.
+Open Scope N_scope.
+
+Definition B : N := conn_buffer_size.
+Definition BATCH : N := utils_batch_size.
+
+Theorem c09_source_shape :
+  translated_conn = true /\ connection_connection_kill_ok = true /\ connection_connection_command_phase_ok = true /\
+  connection_connection_inner_start_ok = true /\ connection_connection_start_ok = true /\
+  connection_connection_handle_change_user_ok = true /\ err_session_was_killed = E_SESSION_WAS_KILLED.
+Proof. repeat split; reflexivity. Qed.
+
+(* in EVERY state: a KILL QUERY that finds no command being handled (idle, connection phase, shutdown,
+   re-authentication) changes nothing and writes nothing *)
+Theorem c09_kill_query_idle_is_noop : forall s, executing s = false -> step B BATCH s (EvKill KQ) = (s, []).
+Proof. exact (kq_ignored_when_not_executing B BATCH). Qed.
+
+(* in EVERY state: a KILL QUERY never rescues a connection that is being killed *)
+Theorem c09_kill_connection_not_downgraded : forall s, kill s = Some KC -> step B BATCH s (EvKill KQ) = (s, []).
+Proof. exact (kq_after_kc_ignored B BATCH). Qed.
+
+Theorem c09_kill_query_from_own_callback_is_noop : forall s, step B BATCH s (EvKillSelf KQ) = (s, []).
+Proof. exact (kq_self_ignored B BATCH). Qed.
+
+(* a kill for a connection that has ended changes nothing *)
+Theorem c09_kill_finished_connection : forall s e, ctl_ s = Done -> step B BATCH s e = (s, []).
+Proof. exact (any_event_when_done B BATCH). Qed.
+
+(* ... and that single ERR completes whatever part of the response had been written (see C03) *)
+Theorem c09_err_completes_response : forall dep c pre post code, c <> RKNone ->
+  accepts dep c (pre ++ post) = true -> post <> [] -> accepts dep c (pre ++ [PErr code]) = true.
+Proof. exact midstream_err_accepted. Qed.
+
+(* a kill of either kind at EVERY suspension point of a reference conversation (query with async rows and
+   cooperative yields, prepared statement, cursor fetch under a paused socket, COM_CHANGE_USER): KILL QUERY leaves
+   the connection alive at a command boundary or inside the same exchange; KILL CONNECTION ends it after one
+   session.close; computed inside Coq for all placements *)
+Definition ref_conv : list ev :=
+  [EvHandshake true true; EvDecide ASuccess; EvApp OVoid; EvPayload CPing;
+   EvPayload CQuery; EvApp (OSet (mk_sizes 1 [20; 20] 5 7) [IRow 5; ISuspend; IRow 5; IRow 5; IRow 5]); EvRowReady; EvTick;
+   EvPayload (CPrepare 1 (mk_sizes 12 [24] 5 0)); EvPayload (CExecute 0 true);
+   EvApp (OSet (mk_sizes 1 [20] 5 7) [IRow 5; IRow 5; ISuspend; IRow 5; IRow 5]);
+   EvPause; EvPayload (CFetch 0 2 7); EvResume; EvPayload (CFetch 0 9 7); EvRowReady; EvTick;
+   EvPayload (CReset 0); EvApp OVoid; EvPayload CChangeUser; EvDecide AMore; EvAuthReply ASuccess; EvApp OVoid;
+   EvPayload CInitDb; EvApp OVoid].
+
+Definition finish_up : list ev := [EvResume; EvApp OVoid; EvRowReady; EvTick; EvTick; EvApp OVoid; EvApp OVoid].
+
+Definition kill_at (i : nat) (k : kk) : st * list out :=
+  session B 2 50 (firstn i ref_conv ++ [EvKill k] ++ finish_up).
+
+Definition kq_ok (i : nat) : bool :=
+  let s := fst (kill_at i KQ) in
+  match ctl_ s with Done => false | Stuck => false | _ => (closes s =? 0)%nat end.
+Definition kc_ok (i : nat) : bool :=
+  let r := kill_at i KC in
+  match ctl_ (fst r) with
+  | Done => (closes (fst r) =? Nat.b2n (inited (fst r)))%nat && (releases (snd r) =? 2)%nat
+  | _ => false end.
+
+Theorem c09_every_placement_computed :
+  forallb kq_ok (List.seq 0 (S (length ref_conv))) = true /\ forallb kc_ok (List.seq 0 (S (length ref_conv))) = true.
+Proof. vm_compute. split; reflexivity. Qed.
+
+(* whatever kills arrive, in any number and order, mixed with any other events: close at most once (C10) *)
+Theorem c09_any_kills_close_at_most_once : forall hs evs,
+  (closes (fst (session B BATCH hs evs)) <= 1)%nat.
+Proof.
+  intros hs evs. pose proof (session_good B BATCH hs evs) as G. unfold good10, good in G.
+  destruct (ctl_ (fst (session B BATCH hs evs))).
+  - apply P_weak in G. apply G.
+  - unfold D10 in G. rewrite G. destruct (inited _); cbn; lia.
+  - apply G.
+Qed.
+
+(* the recorded open finding: a KILL QUERY accepted after the terminal packet of the response was written
+   (the handler still waits for the final drain) appends an ERR to a complete response *)
+Theorem c09_kill_query_after_terminal_packet_refuted : exists evs,
+  let r := session B BATCH 50 evs in
+  let pk := flat_map (fun o => match o with OWrite ps => map snd ps | _ => [] end) (snd r) in
+  skipn 2 pk = [POk false 0; PErr E_SESSION_WAS_KILLED] /\ accepts true RKOk (skipn 2 pk) = false.
+Proof.
+  exists [EvHandshake true true; EvDecide ASuccess; EvApp OVoid; EvPause; EvPayload CPing; EvKill KQ; EvResume].
+  vm_compute. split; reflexivity.
+Qed.
